@@ -106,8 +106,8 @@ impl Property for C01 {
     }
     fn runs(&self, tier: Tier) -> u64 {
         match tier {
-            Tier::Quick => 300_000,
-            Tier::Thorough => 10_000_000,
+            Tier::Quick => 1_500_000,
+            Tier::Thorough => 40_000_000,
         }
     }
     fn probe_names(&self) -> &'static [&'static str] {
@@ -139,7 +139,7 @@ impl Property for C01 {
 
     fn gen(&self, src: &mut Src) -> Scenario {
         let dev_kind = CHAIN_KINDS[src.draw(3) as usize];
-        let large = src.draw(2) == 0;
+        let large = src.draw(5) < 3;
         let bbox = if large { [-100, -100, 240, 240] } else { gen_small_box(src) };
         let caps_b = 1 + src.draw(7) as u8;
         let disc_b = src.draw(4) as u8;
@@ -149,8 +149,10 @@ impl Property for C01 {
         } else {
             Vec::new()
         };
-        let top_kind = crate::model::StackModel::new(dev.r(), dev_kind, &stack).top_kind();
-        let knobs = gen_knobs(src, top_kind.mask(), false);
+        let sm = crate::model::StackModel::new(dev.r(), dev_kind, &stack);
+        let top_kind = sm.top_kind();
+        let mut knobs = gen_knobs(src, top_kind.mask(), false);
+        knobs.aim_at(&sm.top_box());
         let drawable = gen_drawable(src, &knobs, top_kind.bits());
         Scenario {
             bbox,
